@@ -16,7 +16,7 @@ pub const BPS: [u8; 5] = [8, 12, 16, 20, 24];
 pub const TAILS: [i32; 9] = [0, 1, 2, 15, 16, 17, 31, -1, -2];
 pub const WORKERS: [u8; 4] = [0, 1, 2, 3];
 pub const ORDER_SELS: [u8; 5] = [0, 1, 16, 32, 64];
-pub const LPC_ORDERS: [u8; 5] = [1, 2, 8, 10, 24];
+pub const LPC_ORDERS: [u8; 6] = [1, 2, 8, 10, 16, 24];
 pub const PRECISIONS: [u8; 5] = [1, 2, 7, 12, 15];
 pub const WINDOWS: [f32; 5] = [-1.0, 0.0, 0.1, 0.4, 1.0]; // -1 = Rectangle
 pub const MAX_PARAMS: [u8; 6] = [0, 1, 4, 8, 13, 14];
@@ -44,6 +44,10 @@ pub struct Cfg {
     pub direct_mse: bool,
     #[serde(default)]
     pub mae_steps: u8,
+    /// when set, `config.block_size` differs from the block size passed to the encode call (the
+    /// argument overrides the configuration; the output must not depend on it)
+    #[serde(default)]
+    pub cfg_bs_mismatch: bool,
 }
 
 impl Default for Cfg {
@@ -64,6 +68,7 @@ impl Default for Cfg {
             max_param: 14,
             direct_mse: false,
             mae_steps: 0,
+            cfg_bs_mismatch: false,
         }
     }
 }
@@ -75,7 +80,7 @@ pub struct Input {
     pub rate: u32,
     pub bs: u32,
     /// number of full blocks
-    pub full: u8,
+    pub full: u32,
     /// length of the final short block (0 = none)
     pub tail: u32,
     /// atom of block 0..3
@@ -150,13 +155,13 @@ pub fn fnv(s: &str) -> u64 {
 // ------------------------------------------------------------------------------------------------
 // Coordinates
 
-pub const N_COORDS_BASE: usize = 25;
-pub const N_COORDS_EXP: usize = 27;
+pub const N_COORDS_BASE: usize = 26;
+pub const N_COORDS_EXP: usize = 28;
 
 pub const COORD_NAMES: [&str; N_COORDS_EXP] = [
     "ch", "bps", "rate", "bs", "full", "tail", "atom0", "atom1", "atom2", "atom3", "rel", "delivery",
     "workers", "ls", "rs", "ms", "use_constant", "use_fixed", "use_lpc", "fixed_max_order", "order_sel",
-    "lpc_order", "precision", "window", "max_param", "direct_mse", "mae_steps",
+    "lpc_order", "precision", "window", "max_param", "cfg_bs", "direct_mse", "mae_steps",
 ];
 
 pub fn domain_size(c: usize) -> usize {
@@ -179,7 +184,8 @@ pub fn domain_size(c: usize) -> usize {
         23 => WINDOWS.len(),
         24 => MAX_PARAMS.len(),
         25 => 2,
-        26 => MAE_STEPS.len(),
+        26 => 2,
+        27 => MAE_STEPS.len(),
         _ => unreachable!(),
     }
 }
@@ -201,7 +207,7 @@ pub fn decode(p: &Point) -> Case {
             bps: BPS[p[1] as usize],
             rate: RATES[p[2] as usize],
             bs,
-            full: p[4],
+            full: p[4] as u32,
             tail,
             atoms: [p[6], p[7], p[8], p[9]],
             rel: p[10],
@@ -222,8 +228,9 @@ pub fn decode(p: &Point) -> Case {
             precision: PRECISIONS[p[22] as usize],
             window: WINDOWS[p[23] as usize],
             max_param: MAX_PARAMS[p[24] as usize],
-            direct_mse: p[25] != 0,
-            mae_steps: MAE_STEPS[p[26] as usize],
+            cfg_bs_mismatch: p[25] != 0,
+            direct_mse: p[26] != 0,
+            mae_steps: MAE_STEPS[p[27] as usize],
         },
     }
 }
@@ -256,6 +263,7 @@ fn base(ch: u8, bps: u8, rate: u32, bs: u32, tail: i32, atoms: [u8; 4], rel: u8)
     p[24] = idx(&MAX_PARAMS, 14);
     p[25] = 0;
     p[26] = 0;
+    p[27] = 0;
     p
 }
 
